@@ -84,7 +84,7 @@ def gen_cases(tier, seed):
                     for k in drops:
                         cases.append({"cfg": cfg, "side": side, "round": r, "wrong": False, "drop": k})
     # the same cancel points on handlers which already went through another transaction
-    for mode, closure, prior in itertools.product(("ack", "unack"), (False, True), ("completed", "cancelled_S", "cancelled_D")):
+    for mode, closure, prior in itertools.product(("ack", "unack"), (False, True), ("completed", "cancelled_S", "cancelled_D", "reset_undrained")):
         cfg = base(mode, closure, True, "crc32", 13)
         rounds, nemit = clean_shape(tuple(sorted(cfg.items())))
         for side in ("S", "D"):
@@ -159,10 +159,34 @@ def run_case(case):
         try:
             if case.get("prior"):
                 # the handlers already went through a transaction (completed, or cancelled by either side) before the one that is judged
-                pacts = {} if case["prior"] == "completed" else {2: [("cancel", "S" if case["prior"] == "cancelled_S" else "D")]}
+                pacts = {} if case["prior"] in ("completed", "reset_undrained") else {2: [("cancel", "S" if case["prior"] == "cancelled_S" else "D")]}
                 pr = Runner(w, actions=pacts, max_expiries=30, max_rounds=2000)
                 w.put()
-                pr.run()
+                if case["prior"] == "reset_undrained":
+                    # ... at the moment the EOF PDU is about to reach the receiver (its answer stays in the queue)
+                    for _ in pr.steps():
+                        if pr.s2d and wire.kind_of(pr.s2d[0]) == "EOF":
+                            break
+                else:
+                    pr.run()
+                if case["prior"] == "reset_undrained":
+                    # the user gives the first transaction up in the middle: one more call per side whose PDUs are not retrieved, then reset()
+                    for ep, q in ((w.D, pr.s2d), (w.S, pr.d2s)):
+                        ep.autodrain = False
+                        try:
+                            try:
+                                if q:
+                                    raw = q.pop(0)
+                                    ep.sm(wire.parse(raw), {"kind": wire.kind_of(raw)})
+                                else:
+                                    ep.sm()
+                            except Exception:  # noqa: BLE001
+                                pass
+                            ep.reset()
+                        finally:
+                            ep.autodrain = True
+                        ep.drain()
+                    w.cfg["seq_start"] = w.cfg["seq_start"]
                 for ep in (w.S, w.D):
                     if ep.h.state.name != "IDLE":
                         ep.reset()
@@ -190,6 +214,10 @@ def run_case(case):
             res = act["res"]
             if res is None:
                 obs["cancel_raised_protocol_exception"] = 1
+                if call.get("queued") == 0:
+                    # (the bench retrieves every PDU before it calls cancel_request)
+                    viol.append({"clause": "cancel-request-raised-although-no-pdu-was-waiting", "handler_before": st_before,
+                                 "exc": [x for x in r.proto_exc if x[2] == "cancel"][:1]})
             elif bool(res) != busy_with_id:
                 viol.append({"clause": "cancel-request-result", "returned": res, "handler_before": st_before, "wrong_id": case["wrong"]})
             ret = next((e for e in evs[evs.index(call):] if e["kind"] in ("ret", "exc") and e.get("call_seq") == call["seq"]), None)
@@ -275,6 +303,17 @@ def run_case(case):
                 if (cfg["mode"] == "ack" or cfg["closure"]) and finp and (finp[0].get("cond") != cond or finp[0].get("fault_loc") != 1):
                     viol.append({"clause": "eof-cancel-finished-pdu", "eof": cond, "fin_pdu": {k: v for k, v in finp[0].items() if k != "h"}})
                 break
+        # every copy of the EOF (cancel) of a transaction is the same PDU (re-sent at the positive ACK timer's expiry)
+        by_tid = {}
+        for e in evs:
+            if e["kind"] == "tx" and e["side"] == "S" and e["raw"] and e["d"].get("kind") == "EOF" and e["d"].get("cond") == "CANCEL_REQUEST_RECEIVED":
+                by_tid.setdefault(e["d"]["h"]["seq"], []).append(e["raw"])
+        for seqn, raws in by_tid.items():
+            if len(set(raws)) > 1:
+                viol.append({"clause": "re-sent-eof-cancel-differs-from-the-first-one", "copies": [wire.short(wire.describe(x)) for x in raws[:3]],
+                             "hex": [x.hex() for x in raws[:2]]})
+            elif len(raws) > 1:
+                obs["eof_cancel_resends_identical"] = obs.get("eof_cancel_resends_identical", 0) + 1
         viol += mon.viol
         for v in viol:
             v["trace"] = trace_summary(w, r, 70)
